@@ -20,6 +20,15 @@ where
     }
 }
 
+/// Adds floating-point values in a fixed order (ascending by `f64::total_cmp`), so that the rounding
+/// of the sum does not depend on the order in which the values were produced, e.g. the iteration
+/// order of a `HashMap` or `HashSet`.
+pub(crate) fn sum_in_fixed_order<I: Iterator<Item = f64>>(values: I) -> f64 {
+    let mut values: Vec<f64> = values.collect();
+    values.sort_by(|a, b| a.total_cmp(b));
+    values.into_iter().sum()
+}
+
 pub trait IteratorExt: Iterator {
     fn chunk_by_count(self) -> ChunkByCount<Self>
     where
